@@ -6,6 +6,13 @@ File_Close (guarded; the handle is dropped before the result of fclose is tested
 held handle first; the argument counts File_Read / File_Write pass to fread / fwrite; the class instances of `File`
 (which function is sclose, stop, destruct …); `with_in` (also clause by clause: which expression the init clause hands
 to start_in and the step clause to stop_in), `start_in`, `stop_in`.
+
+The same anchor file defines `Process`, the second Stream class: the same wrappers over `popen` / `pclose`.  For every
+Process_* function the same table (guard `if (p->proc is NULL) { throw(IOError, …` before the first stdio call), the two
+facts fix 51c301c established about Process_Close (guarded; the handle is dropped before the result of pclose is tested),
+whether each Process_<X> IS File_<X> under the renaming Process_→File_, `struct Process* p`→`struct File* f`,
+p->proc→f->file, popen→fopen, pclose→fclose, "process"→"file" (so that one model serves both), and the whitespace-normalised
+texts of Process_New / Process_Del / Process_Open / Process_Close (pinned by C20_process_source_shape).
 """
 import re
 from ctext import *
@@ -32,6 +39,116 @@ def instance_members(src, cls):
     if not mm: raise ExtractError(f'File has no Instance({cls}, …)')
     e = balanced(decl, decl.index('(', mm.start()))
     return split_top(decl[decl.index('(', mm.start()) + 1:e - 1])[1:]
+
+PGUARD = r'if\s*\(\s*p->proc\s+is\s+NULL\s*\)\s*\{\s*throw\s*\(\s*IOError\b'
+PHELD = r'if\s*\(\s*p->proc\s+isnt\s+NULL\s*\)\s*\{\s*Process_Close\s*\(\s*self\s*\)\s*;\s*\}'
+PROC_EXPECTED = ['Process_Close', 'Process_Del', 'Process_EOF', 'Process_Flush', 'Process_Format_From', 'Process_Format_To',
+                 'Process_New', 'Process_Open', 'Process_Read', 'Process_Seek', 'Process_Tell', 'Process_Write']
+
+def _norm(s): return re.sub(r'\s+', ' ', s).strip()
+
+def as_file(body):
+    """a Process_* body under the renaming that turns it into the File_* function of the same name"""
+    b = body
+    b = re.sub(r'\bProcess_', 'File_', b)
+    b = re.sub(r'\bstruct\s+Process\s*\*\s*p\b', 'struct File* f', b)
+    b = re.sub(r'\bp->proc\b', 'f->file', b)
+    b = re.sub(r'\bpopen\b', 'fopen', b)
+    b = re.sub(r'\bpclose\b', 'fclose', b)
+    b = re.sub(r'\bprocess\b', 'file', b)
+    return _norm(b)
+
+def class_decl(src, cls):
+    m = re.search(r'var\s+' + cls + r'\s*=\s*Cello\s*\(\s*' + cls + r'\s*,', src)
+    if not m: raise ExtractError(f'`var {cls} = Cello({cls}, …)` not found')
+    return src[m.start():balanced(src, src.index('(', m.start()))]
+
+def members_of(decl, cls, who):
+    mm = re.search(r'Instance\s*\(\s*' + cls + r'\s*,', decl)
+    if not mm: raise ExtractError(f'{who} has no Instance({cls}, …)')
+    e = balanced(decl, decl.index('(', mm.start()))
+    return split_top(decl[decl.index('(', mm.start()) + 1:e - 1])[1:]
+
+def gen_process(src, file_bodies):
+    """the Process half of src/File.c"""
+    names = sorted(set(re.findall(r'\bstatic\s+[\w\s\*]+?\b(Process_\w+)\s*\([^;{]*\)\s*\{', src)))
+    doc = {'Process_Name', 'Process_Brief', 'Process_Description', 'Process_Definition', 'Process_Examples', 'Process_Methods'}
+    names = [n for n in names if n not in doc]
+    if names != PROC_EXPECTED:
+        raise ExtractError(f'the Process_* functions of src/File.c are {names}, the model covers {PROC_EXPECTED}')
+    rows = []; bodies = {}
+    for n in names:
+        b = func_body(src, n); bodies[n] = b
+        calls = stdio_calls(b)
+        g = re.search(PGUARD, b)
+        rows.append((n, [c for _, c in calls], bool(g), bool(g) and (not calls or g.start() < calls[0][0])))
+    bc = bodies['Process_Close']
+    m_pclose = re.search(r'\bpclose\s*\(\s*p->proc\s*\)', bc)
+    if not m_pclose: raise ExtractError('Process_Close: pclose(p->proc) not found')
+    g = re.search(PGUARD, bc)
+    close_guarded = bool(g) and g.start() < m_pclose.start()
+    m_null = re.search(r'p->proc\s*=\s*NULL\s*;', bc)
+    m_err = re.search(r'if\s*\(\s*err\s*!=\s*0\s*\)\s*\{\s*throw\s*\(\s*IOError', bc)
+    if not m_null: raise ExtractError('Process_Close never resets p->proc')
+    if not m_err: raise ExtractError('Process_Close: the test of the result of pclose (→ IOError) was not found')
+    if m_null.start() < m_pclose.start(): raise ExtractError('Process_Close resets p->proc before calling pclose')
+    close_drops = m_null.start() < m_err.start()
+    bo = bodies['Process_Open']
+    h = re.search(PHELD, bo)
+    po = re.search(r'p->proc\s*=\s*popen\s*\(\s*c_str\s*\(\s*filename\s*\)\s*,\s*c_str\s*\(\s*access\s*\)\s*\)', bo)
+    if not po: raise ExtractError('Process_Open: `p->proc = popen(c_str(filename), c_str(access))` not found')
+    open_closes_first = bool(h) and h.start() < po.start()
+    open_throws = bool(re.search(r'if\s*\(\s*p->proc\s+is\s+NULL\s*\)\s*\{\s*throw\s*\(\s*IOError', bo[po.end():]))
+    bd = bodies['Process_Del']
+    del_closes = bool(re.search(PHELD, bd)) and not stdio_calls(bd)
+    # Process_New: `p->proc = NULL; Process_Open(self, get(args, $I(0)), get(args, $I(1)));` — no test of len(args): it always opens
+    bn = _norm(bodies['Process_New'])
+    new_always = bool(re.fullmatch(r'struct Process\* p = self; p->proc = NULL; Process_Open\(self, get\(args, \$I\(0\)\), get\(args, \$I\(1\)\)\);', bn))
+    same = []
+    for n in names:
+        if n == 'Process_New': continue
+        fn = 'File_' + n[len('Process_'):]
+        same.append((n, fn in file_bodies and as_file(bodies[n]) == _norm(file_bodies[fn])))
+    decl = class_decl(src, 'Process')
+    inst = {c: members_of(decl, c, 'Process') for c in ('New', 'Start', 'Stream', 'Format')}
+    inst_classes = re.findall(r'Instance\s*\(\s*(\w+)\s*,', decl)
+    b = lambda x: 'true' if x else 'false'
+    rows_txt = ',\n   '.join(f'⟨{lean_str(n)}, {lean_list([lean_str(c) for c in cs])}, {b(g)}, {b(gf)}⟩' for n, cs, g, gf in rows)
+    same_txt = ', '.join(f'({lean_str(n)}, {b(v)})' for n, v in same)
+    return f"""
+/-! ### `Process`, the second Stream class of src/File.c (popen / pclose) -/
+
+/-- every Process_* function of src/File.c (documentation functions excluded); `guarded` = contains
+    `if (p->proc is NULL) {{ throw(IOError, …` -/
+def procTable : List Row :=
+  [{rows_txt}]
+
+/-- Process_Close tests `p->proc is NULL` (→ IOError) before calling pclose (fix 51c301c) -/
+def procCloseGuarded : Bool := {b(close_guarded)}
+/-- Process_Close executes `p->proc = NULL` after pclose and before testing its result (fix 51c301c) -/
+def procCloseDropsAlways : Bool := {b(close_drops)}
+/-- Process_Open: `if (p->proc isnt NULL) {{ Process_Close(self); }}` precedes `p->proc = popen(c_str(filename), c_str(access))` -/
+def procOpenClosesFirst : Bool := {b(open_closes_first)}
+/-- Process_Open: a NULL result of popen → throw IOError -/
+def procOpenThrowsOnNull : Bool := {b(open_throws)}
+/-- Process_Del: `if (p->proc isnt NULL) {{ Process_Close(self); }}` and no stdio call of its own -/
+def procDelClosesIfHeld : Bool := {b(del_closes)}
+/-- Process_New is exactly `p->proc = NULL; Process_Open(self, get(args, $I(0)), get(args, $I(1)));` (no test of len(args)) -/
+def procNewAlwaysOpens : Bool := {b(new_always)}
+/-- is Process_<X> the text of File_<X> under Process_→File_, `struct Process* p`→`struct File* f`, p->proc→f->file,
+    popen→fopen, pclose→fclose, "process"→"file" (white space normalised)?  Process_New is not File_New: see above -/
+def procSameAsFile : List (String × Bool) := [{same_txt}]
+def procInstNew : List String := {lean_list([lean_str(x) for x in inst['New']])}
+def procInstStart : List String := {lean_list([lean_str(x) for x in inst['Start']])}
+def procInstStream : List String := {lean_list([lean_str(x) for x in inst['Stream']])}
+def procInstFormat : List String := {lean_list([lean_str(x) for x in inst['Format']])}
+def procInstClasses : List String := {lean_list([lean_str(x) for x in inst_classes])}
+/-- whitespace-normalised bodies -/
+def procNewText : String := {lean_str(bn)}
+def procDelText : String := {lean_str(_norm(bd))}
+def procOpenText : String := {lean_str(_norm(bo))}
+def procCloseText : String := {lean_str(_norm(bc))}
+"""
 
 def gen_file(repo):
     src = read(f'{repo}/src/File.c')
@@ -125,6 +242,7 @@ def gen_file(repo):
     rows_txt = ',\n   '.join(f'⟨{lean_str(n)}, {lean_list([lean_str(c) for c in cs])}, {"true" if g else "false"}, {"true" if gf else "false"}⟩'
                              for n, cs, g, gf in rows)
     b = lambda x: 'true' if x else 'false'
+    proc_txt = gen_process(src, bodies)
     return HEADER + f"""namespace CelloGen.File
 
 structure Row where
@@ -183,7 +301,7 @@ def withStepArg : String := {lean_str(w_step_arg)}
 def withStopsBound : Bool := {b(w_step_arg == 'X')}
 def startIn : String := {lean_str(norm(bsi))}
 def stopIn : String := {lean_str(norm(bso))}
-
+{proc_txt}
 end CelloGen.File
 """
 
